@@ -3,6 +3,7 @@
 package NoKV
 
 import (
+	"github.com/feichai0017/NoKV/kv"
 	"github.com/feichai0017/NoKV/lsm"
 	"github.com/feichai0017/NoKV/manifest"
 )
@@ -58,4 +59,61 @@ func (db *DB) VerifRewriteVlog(bucket, fid uint32) error {
 // VerifOracleState reports the oracle's next timestamp and watermarks.
 func (db *DB) VerifOracleState() (nextTs, txnDoneUntil, readDoneUntil uint64) {
 	return db.orc.nextTxnTs.Load(), db.orc.txnMark.DoneUntil(), db.orc.readMark.DoneUntil()
+}
+
+// VerifKeySources lists every source holding entries for (cf, key) in lookup
+// order, with value pointers resolved through the value log (the first 48
+// bytes and the length of the resolved value are kept in Value/ValueLen).
+func (db *DB) VerifKeySources(cf kv.ColumnFamily, key []byte) []VerifKeySource {
+	raw := db.lsm.VerifKeySources(kv.InternalKey(cf, key, 0))
+	out := make([]VerifKeySource, 0, len(raw))
+	for _, s := range raw {
+		ks := VerifKeySource{Kind: s.Kind, Level: s.Level, Fid: s.Fid}
+		for _, e := range s.Entries {
+			ke := VerifKeyEntry{Version: e.Version, Meta: e.Meta, ExpiresAt: e.ExpiresAt}
+			val := e.Value
+			if e.Meta&kv.BitValuePointer != 0 {
+				ke.Pointer = true
+				var vp kv.ValuePtr
+				vp.Decode(e.Value)
+				res, cb, err := db.vlog.read(&vp)
+				if err != nil {
+					ke.Err = err.Error()
+					val = nil
+				} else {
+					val = kv.SafeCopy(nil, res)
+				}
+				if cb != nil {
+					kv.RunCallback(cb)
+				}
+			}
+			ke.ValueLen = len(val)
+			if len(val) > 48 {
+				val = val[:48]
+			}
+			ke.Value = val
+			ks.Entries = append(ks.Entries, ke)
+		}
+		out = append(out, ks)
+	}
+	return out
+}
+
+// VerifKeySource is one source of VerifKeySources.
+type VerifKeySource struct {
+	Kind    string
+	Level   int
+	Fid     uint64
+	Entries []VerifKeyEntry
+}
+
+// VerifKeyEntry is one entry of a source with its resolved value head.
+type VerifKeyEntry struct {
+	Version   uint64
+	Meta      byte
+	ExpiresAt uint64
+	Pointer   bool
+	Value     []byte
+	ValueLen  int
+	Err       string
 }
